@@ -949,6 +949,9 @@ def scenario_campaign(ch, tr, st):
             ev.incrb = ["dva", "va", "a", ""][ch.draw(4, "incrb")]
             ev.rf_disp_only = ch.flip(1, 3, "rf_disp_only")
             ev.clock_jumps = ch.flip(1, 2, "clock_jumps")
+            ev.solve_first = ev.jorder == sorted(ev.jorder) and ev.n > 1 and ch.flip(1, 3, "psd_solve_first")
+            ev.presolved = False
+            ev.solved = {}
             ev.fs_kind = ch.weighted([3, 1], "fs_kind")
             if mod.rfmodes is not None and mod.desc["rf_at"] and mod.desc["rf_at"][0] < mod.nrb + mod.nel:
                 # SolveUnc.fsolve raises IndexError in _solve_freq_rb when residual-flexibility
@@ -1068,6 +1071,7 @@ def scenario_campaign(ch, tr, st):
                 with _Sut("DR_Event.prepare_results"):
                     ev.res = ev.DR.prepare_results("mission", ev.name)
                 ev.done = []
+                ev.presolved = False  # the temporary PSD store died with the results
                 st.fault("crash_restart_from_scratch")
             else:
                 with fs.mounted(M), _Sut("cla.load(event results)"):
@@ -1144,11 +1148,9 @@ class FakeClock:
         return self.t
 
 
-def op_recover_psd(M, ch, tr, st, rng, mod, ev):
+def _psd_solve(M, ch, tr, st, rng, ev, case):
+    """solvepsd for one case (system) + the model's response PSDs for it."""
     mod = ev.mod
-    k = len(ev.done)
-    j = ev.jorder[k]
-    case = f"{ev.name}c{k}"
     if ev.xfixed is None:
         lo = 0.4 * float(ev.srs_all[0])
         hi = 1.6 * float(ev.srs_all[-1])
@@ -1185,8 +1187,6 @@ def op_recover_psd(M, ch, tr, st, rng, mod, ev):
             ev.res.solvepsd(nas, case, ev.DR, ev.fs, forcepsd.copy(), t_frc.copy(), f.copy(), use_apply_uf=ev.use_apply_uf, verbose=verbose, **({"allow_force_trimming": True} if trim else {}), **kw)
     finally:
         _t.time = orig
-    with _Sut("DR_Results.psd_data_recovery"), _quiet():
-        ev.res.psd_data_recovery(case, ev.DR, ev.n, j, dosrs=True, peak_factor=ev.peak_factor, resp_time=ev.resp_time)
     # model
     ufs = list(dict.fromkeys(c.uf for c in ev.cats))
     rfidx = None if mod.rfmodes is None else (np.flatnonzero(mod.rfmodes) if mod.rfmodes.dtype == bool else mod.rfmodes)
@@ -1204,12 +1204,33 @@ def op_recover_psd(M, ch, tr, st, rng, mod, ev):
         for cs in ev.cats:
             resp = cs.fn(cs.V, refsol[cs.uf])
             P[cs.name] = P[cs.name] + forcepsd[i] * np.abs(resp) ** 2
+    ev.solved[case] = (P, f)
+    tr.ev("psdin", forcepsd, t_frc)
+
+
+def op_recover_psd(M, ch, tr, st, rng, mod, ev):
+    mod = ev.mod
+    k = len(ev.done)
+    j = ev.jorder[k]
+    case = f"{ev.name}c{k}"
+    if ev.solve_first:
+        # all systems of the event are solved before any case is recovered (the temporary
+        # per-case PSD store has to hold them all until its case is recovered)
+        if not ev.presolved:
+            for kk in range(k, ev.n):
+                _psd_solve(M, ch, tr, st, rng, ev, f"{ev.name}c{kk}")
+            ev.presolved = True
+            st.fault("psd_all_solved_before_recovery")
+    else:
+        _psd_solve(M, ch, tr, st, rng, ev, case)
+    with _Sut("DR_Results.psd_data_recovery"), _quiet():
+        ev.res.psd_data_recovery(case, ev.DR, ev.n, j, dosrs=True, peak_factor=ev.peak_factor, resp_time=ev.resp_time, verbose=ch.draw(4, "verbose") if ch.flip(1, 8, "verbose_on") else 0)
+    P, f = ev.solved[case]
     ev.R[case] = P
     ev.x[case] = f
     ev.done.append((j, case))
     st.fault("psd_domain")
-    tr.shape("recover", ev.idx, j, "psd", nf, ev.use_apply_uf, ev.incrb, ev.clock_jumps)
-    tr.ev("psdin", forcepsd, t_frc)
+    tr.shape("recover", ev.idx, j, "psd", len(f), ev.use_apply_uf, ev.incrb, ev.clock_jumps, ev.solve_first)
 
 
 def op_recover(M, ch, tr, st, rng, mod, ev, h, nan_on, ties_on):
@@ -1251,7 +1272,7 @@ def op_recover(M, ch, tr, st, rng, mod, ev, h, nan_on, ties_on):
         plant(SOL)
         plant(refsol)
         with _Sut("DR_Results.frf_data_recovery"), _quiet():
-            ev.res.frf_data_recovery(SOL, None, case, ev.DR, ev.n, j, dosrs=ev.dosrs)
+            ev.res.frf_data_recovery(SOL, None, case, ev.DR, ev.n, j, dosrs=ev.dosrs, verbose=ch.draw(4, "verbose") if ch.flip(1, 8, "verbose_on") else 0)
     R = {}
     for cs in ev.cats:
         with np.errstate(all="ignore"):
@@ -1847,5 +1868,5 @@ ASSUMPTIONS = [
 EXPECTED_FAULTS = [
     "psd_domain", "clock_jump_backwards", "clock_jump_forwards", "external_maxmin", "merge_rename", "mixed_abscissa", "model_varies_between_events", "zero_force_psd_row", "nan_cells", "ties", "ties_quantised", "one_column_ext", "label_mismatch", "j_out_of_order", "interleaved_events", "view_drfunc",
     "cache_reuse", "cache_reuse_repeat_uf", "stale_extreme_rebuild", "shared_DR_Event", "envelope_multi_event", "split_merge", "calc_ext",
-    "integer_table", "inf_cells", "mixed_depth_tree", "merge_of_merged_results", "force_trimming", "checkpoint_saved", "crash_restart_from_checkpoint", "crash_restart_from_scratch", "crash_lost_cases_redone", "summary_copy", "summary_copy_stripped",
+    "integer_table", "inf_cells", "mixed_depth_tree", "merge_of_merged_results", "force_trimming", "psd_all_solved_before_recovery", "checkpoint_saved", "crash_restart_from_checkpoint", "crash_restart_from_scratch", "crash_lost_cases_redone", "summary_copy", "summary_copy_stripped",
 ]
